@@ -66,9 +66,13 @@ def check(case, ignore_regions=False) -> Outcome:
         return out
 
     try:
-        cg, new_event = make_counterfactual_graph(graph, dict(event))
+        ev_obj = dict(event)
+        cg, new_event = make_counterfactual_graph(graph, ev_obj)
+        cg2, new_event2 = make_counterfactual_graph(graph, ev_obj)
     except Exception as e:
         return fail("make_counterfactual_graph-raised", exc=repr(e)[:300])
+    if new_event2 != new_event or not (cg2 == cg and cg == cg2):
+        return fail("result-changes-when-the-call-is-repeated-with-the-same-objects", first=str(new_event), second=str(new_event2))
     nworlds = len({tuple(sorted(map(tuple, it["do"]))) for it in items if it["do"]})
     if nworlds + (1 if any(not it["do"] for it in items) else 0) >= 2:
         labels.add("worlds>=2")
